@@ -1,6 +1,7 @@
 SPECIFICATION Spec
 CONSTANTS
   MaxLen = 2
+  MaxEnc = 1
   ComboIds <- AllIds
 INVARIANT Inert
 INVARIANT TwinInert
